@@ -18,7 +18,7 @@ from .common import viol, short_exc, exc_site
 PROPERTY = "C19"
 RULE = ("E3: (start, end) pairs over 13 instants x freq {15min,h,2h,6h,d,MS} x main unit {h,d,min} x zone {None,UTC,CET} (grids of 1..300 "
         "steps); per grid: 21 restriction windows over 6 grid-relative instants, coarse frequencies 2x/3x/4x on 4 windows, discount "
-        "factors, all ordered lists of <= 2 (thorough <= 3) intervals over 6 instants x forms {list, array, DatetimeIndex, scalar} x "
+        "factors, all ordered lists of <= 2 (quick: plus every 97th list of 3; thorough: every 5th) intervals over 6 instants x forms {list, array, DatetimeIndex, scalar} x "
         "{explicit, implicit end} x {naive, zone-aware data}, price arrays of length T; distinct = canonical grid case; non-trivial = "
         "the grid was built and compared")
 ASSUMPTIONS = ["R1: fixed frequencies step in absolute time, d / MS in wall-clock calendar time; a partial last step is dropped",
@@ -199,6 +199,13 @@ def run_case(case):
                     if got != [G for G in groups]:
                         V.append(viol("c19.coarse_partition", "coarse grid %s on window [%s, %s): fine steps per interval %s, expected %s" % (cf, ai, bi, got[:4], groups[:4]), tags, ctag + ["coarse"]))
                         break
+                    # index consistency: the time point of a major step is the grid point of its first fine step
+                    rtp = [pd.Timestamp(x) for x in r.timepoints]
+                    wtp = [pd.Timestamp(tg.timepoints[G[0]]) for G in got]
+                    if len(rtp) != len(wtp) or any(x != y for x, y in zip(rtp, wtp)):
+                        V.append(viol("c19.coarse_points", "coarse grid %s on window [%s, %s): time points %s, grid points of the first fine steps %s"
+                                      % (cf, ai, bi, [str(x) for x in rtp[:3]], [str(x) for x in wtp[:3]]), tags, ctag + ["coarse", "points"]))
+                        break
                     sums = [float(dt_impl[G].sum()) for G in got]
                     if not np.allclose(np.asarray(r.dt, float), sums) or [int(i) for i in r.I] != [G[0] for G in got]:
                         V.append(viol("c19.coarse_dt", "coarse grid %s: dt %s, sums of the fine steps %s" % (cf, list(r.dt)[:4], sums[:4]), tags, ctag + ["coarse"]))
@@ -267,6 +274,8 @@ def run_case(case):
         lists = [[iv] for iv in ivs] + [list(p) for p in itertools.permutations(ivs, 2)]
         if nl >= 3:
             lists += [list(p) for p in itertools.permutations(ivs, 3)][::5]
+        else:   # quick: a thin slice of the lists of three (unsorted, overlaps between intervals that are not neighbours in the list)
+            lists += [list(p) for p in itertools.permutations(ivs, 3)][::97]
         n_checked = 0
         for li, L in enumerate(lists):
             forms = ["list", "array", "index"] if len(L) > 1 else ["list", "array", "index", "scalar"]
